@@ -41,6 +41,14 @@ func travScenarios() []*tScenario {
 	add(&tScenario{Name: "dup-id-k1", K: 1, Alpha: 1, Peers: map[int]tPeer{
 		8: {Claim: 8, Nodes: []tContact{tc(3, 3), tc(3, 4)}}, 3: {Claim: 3}, 4: {Claim: 3}},
 		Adds: [][]tContact{{tc(0, 8)}}, Polls: 1, Expect: []byte{3}})
+	// one node ID answering at one IP under two ports (addresses 3 and 19 = 10.0.0.3:1000 / :1001):
+	// two distinct responders
+	add(&tScenario{Name: "dup-id-same-host", K: 3, Alpha: 2, Peers: map[int]tPeer{
+		8: {Claim: 8, Nodes: []tContact{tc(1, 3), tc(1, 19), tc(4, 4)}}, 3: {Claim: 1}, 19: {Claim: 1}, 4: {Claim: 4}},
+		Adds: [][]tContact{{tc(0, 8)}}, Polls: 1, Expect: []byte{1, 1, 4}})
+	add(&tScenario{Name: "dup-id-same-host-k2", K: 2, Alpha: 2, Peers: map[int]tPeer{
+		8: {Claim: 8, Nodes: []tContact{tc(1, 3), tc(1, 19), tc(4, 4)}}, 3: {Claim: 1}, 19: {Claim: 1}, 4: {Claim: 4}},
+		Adds: [][]tContact{{tc(0, 8)}}, Polls: 1, Expect: []byte{1, 1}})
 	add(&tScenario{Name: "data-filter", K: 2, Alpha: 2, Peers: map[int]tPeer{
 		8: {Claim: 8, Data: "t8", Nodes: []tContact{tc(1, 1), tc(2, 2), tc(3, 3)}},
 		1: {Claim: 1, Data: "bad"}, 2: {Claim: 2, Data: "t2"}, 3: {Claim: 3, Data: "t3"}},
